@@ -6,6 +6,7 @@ import (
 	"math/rand"
 	"os"
 	"strconv"
+	"sync"
 	"time"
 
 	mqtt "github.com/mochi-mqtt/server/v2"
@@ -50,35 +51,37 @@ type qOpen struct {
 }
 
 type qosRun struct {
-	rng       *rand.Rand
-	b         *broker.B
-	s         *broker.Conn
-	p         [2]*broker.Conn
-	r         *broker.Conn
-	sv5       bool
-	srm       uint16
-	ssei      uint32
-	sclean    bool
-	subqos    byte
-	uid       uint64
-	steps     sx.L
-	straddle  bool
-	trace     bool
-	pend      []qPend           // S's view: outbound messages it has not finished acknowledging
-	open2     []qOpen           // S's own QoS 2 publishes without PUBREL yet
-	myuid     map[uint64][]byte // uid -> payload
-	lastDrop  int64
-	nextPid   uint16
-	prevSnap  *mqtt.VerifClient
-	t0        int64
-	sleepy    bool
-	evPos     int
-	gate      *gate          // parks S's write loop at write.beforeLock (forced queue-full)
-	gated     bool           // the write loop is parked right now
-	gatedStep map[uint64]int // uid -> index of the step in which it was published while the loop was parked
-	fault     bool           // the step being executed runs with failing writes on S\'s connection
-	padTo     int            // payload length of the next publishes (write-buffer bursts)
-	wbuf      int            // write-buffer histories: ClientNetWriteBufferSize in force
+	rng         *rand.Rand
+	b           *broker.B
+	s           *broker.Conn
+	p           [3]*broker.Conn
+	r           *broker.Conn
+	sv5         bool
+	srm         uint16
+	ssei        uint32
+	sclean      bool
+	subqos      byte
+	uid         uint64
+	steps       sx.L
+	straddle    bool
+	trace       bool
+	pend        []qPend           // S's view: outbound messages it has not finished acknowledging
+	open2       []qOpen           // S's own QoS 2 publishes without PUBREL yet
+	myuid       map[uint64][]byte // uid -> payload
+	lastDrop    int64
+	nextPid     uint16
+	prevSnap    *mqtt.VerifClient
+	t0          int64
+	sleepy      bool
+	evPos       int
+	gate        *gate          // parks S's write loop at write.beforeLock (forced queue-full)
+	gated       bool           // the write loop is parked right now
+	gatedStep   map[uint64]int // uid -> index of the step in which it was published while the loop was parked
+	fault       bool           // the step being executed runs with failing writes on S\'s connection
+	ng          *ngate         // parks allocators inside NextPacketID (forced schedules)
+	monitorOnly bool           // the history is judged by the monitors only
+	padTo       int            // payload length of the next publishes (write-buffer bursts)
+	wbuf        int            // write-buffer histories: ClientNetWriteBufferSize in force
 }
 
 func zz(n int64) sx.V {
@@ -413,6 +416,189 @@ func (q *qosRun) gatedBurst(n int) {
 	}
 }
 
+// ngate parks goroutines at one named schedule point.
+type ngate struct {
+	mu      sync.Mutex
+	point   string
+	armed   bool
+	waiters []chan struct{}
+}
+
+func (g *ngate) hook(name string) {
+	if name != g.point {
+		return
+	}
+	g.mu.Lock()
+	if !g.armed {
+		g.mu.Unlock()
+		return
+	}
+	ch := make(chan struct{})
+	g.waiters = append(g.waiters, ch)
+	g.mu.Unlock()
+	<-ch
+}
+func (g *ngate) count() int { g.mu.Lock(); defer g.mu.Unlock(); return len(g.waiters) }
+func (g *ngate) release(i int) {
+	g.mu.Lock()
+	ch := g.waiters[i]
+	g.mu.Unlock()
+	close(ch)
+}
+func (g *ngate) arm(b bool) { g.mu.Lock(); g.armed = b; g.mu.Unlock() }
+
+// schedBurst: forced schedule inside Client.NextPacketID (schedule point nextid.inside, reached with the client lock
+// held).  Allocator A (publisher 0 delivering a QoS 1 message to S) is parked inside the critical section; allocators
+// B, C (other publishers delivering to S) are started.  Mutual exclusion: none of them may reach the point while A is
+// parked (bounded wait).  Then they are let through one at a time, each observed as an ordinary step.  If one DID get
+// in (overlap), everything is released at once and the outcome is reported in wire order as a monitor-only history:
+// two unacknowledged outbound PUBLISH packets with one identifier are a violation of C10.
+// Returns true if the allocators overlapped.
+func (q *qosRun) schedBurst(n int) bool {
+	g := q.ng
+	if g == nil || !q.sConnected() || !q.sSubscribed() {
+		return false
+	}
+	type alloc struct {
+		k   int
+		uid uint64
+		op  sx.L
+		idx int
+	}
+	var as []alloc
+	base := g.count()
+	g.arm(true)
+	start := func(k int) {
+		now := q.begin()
+		q.uid++
+		u := q.uid
+		pk := broker.PublishPk("p/a", []byte(strconv.FormatUint(u, 10)), 1, false, uint16(1+q.rng.Intn(3)))
+		pk.ProtocolVersion = q.p[k].Version
+		data, _ := broker.Encode(pk)
+		q.b.Feed(q.p[k], data)
+		op := sx.L{sx.N(1), sx.N(1), sx.N(uint64(q.subqos)), sx.N(u), sx.N(uint64(k * 2)), zz(now), sx.N(0), sx.Bool(k == 0), sx.N(0)}
+		as = append(as, alloc{k: k, uid: u, op: op})
+	}
+	start(0)
+	if !waitFor(func() bool { return g.count() == base+1 }) {
+		q.b.Hung = true
+		g.arm(false)
+		return false
+	}
+	for k := 1; k < n; k++ {
+		start(k)
+	}
+	// does anybody else get inside while A is parked there?
+	deadline := time.Now().Add(30 * time.Millisecond)
+	for time.Now().Before(deadline) && g.count() == base+1 {
+		time.Sleep(200 * time.Microsecond)
+	}
+	overlap := g.count() > base+1
+	if overlap {
+		g.arm(false)
+		for j := base; j < g.count(); j++ {
+			g.release(j)
+		}
+		q.b.Quiesce()
+		q.monitorOnly = true
+		for i, a := range as {
+			if i < len(as)-1 {
+				// state and packets are only known at the end
+				q.b.Rec.Drain()
+				me := q.snapS()
+				_ = me
+				q.steps = append(q.steps, sx.L{a.op, sx.L{sx.L{}, sx.L{}, sx.N(0), sx.L{}, q.snapSx()}})
+			} else {
+				obs := q.observe(a.op, a.uid)
+				// the schedule-level observation: a second allocator was inside the critical section
+				step := q.steps[len(q.steps)-1].(sx.L)
+				step[1] = append(obs, sx.N(0), sx.N(1))
+			}
+		}
+		return true
+	}
+	// mutual exclusion held: one allocator after the other (which one gets in next is the runtime's choice)
+	released := base
+	pending := map[int]bool{}
+	for i := range as {
+		pending[i] = true
+	}
+	for len(pending) > 0 {
+		g.release(released)
+		released++
+		last := len(pending) == 1
+		if last {
+			g.arm(false)
+		}
+		// the allocator that was inside finishes: its publisher's handler becomes idle; the next one parks inside
+		done := -1
+		ok := waitFor(func() bool {
+			for i := range pending {
+				if q.p[as[i].k].Parked() {
+					done = i
+					return last || g.count() == released+1
+				}
+			}
+			return false
+		})
+		if !ok {
+			q.b.Hung = true
+			g.arm(false)
+			for j := released; j < g.count(); j++ {
+				g.release(j)
+			}
+			return false
+		}
+		delete(pending, done)
+		q.gatedStep[as[done].uid] = len(q.steps)
+		if last {
+			q.b.Quiesce()
+			// everything S received during the block, attributed to the step that published it
+			var late []packets.Packet
+			for _, o := range q.b.Drain() {
+				if q.s != nil && o.Conn == q.s.Idx {
+					late = append(late, o.Packets...)
+				}
+			}
+			q.observe(as[done].op, as[done].uid)
+			for _, pk := range late {
+				v := q.sPacket(pk)
+				if v == nil || pk.FixedHeader.Type != packets.Publish {
+					continue
+				}
+				if idx, ok := q.gatedStep[uidOf(pk.Payload)]; ok && idx < len(q.steps) {
+					step := q.steps[idx].(sx.L)
+					obs := step[1].(sx.L)
+					obs[0] = append(obs[0].(sx.L), v)
+				}
+			}
+		} else {
+			q.steps = append(q.steps, sx.L{as[done].op, sx.L{sx.L{}, sx.L{}, sx.N(0), sx.L{}, q.snapSx()}})
+			q.b.Rec.Drain()
+			q.evPos = len(q.b.Rec.All())
+		}
+	}
+	return false
+}
+
+// snapSx is S's snapshot in case format.
+func (q *qosRun) snapSx() sx.V {
+	me := q.snapS()
+	if me == nil {
+		return sx.L{}
+	}
+	infl := sx.L{}
+	for _, r := range me.Inflight {
+		u := uint64(0)
+		if r.Type == packets.Publish {
+			u = uidOf(r.Payload)
+		}
+		infl = append(infl, sx.L{sx.N(uint64(r.PacketID)), sx.N(uint64(r.Type)), sx.N(uint64(r.Qos)), sx.N(u), sx.Bool(r.Expiry < 0)})
+	}
+	return sx.L{sx.Bool(me.Connected), infl, zz(int64(me.SendQuota)), zz(int64(me.RecvQuota)),
+		zz(int64(me.MaxSendQuota)), zz(int64(me.MaxRecvQuota)), sx.N(uint64(me.PacketID))}
+}
+
 // faulty runs one client step f with every write to S's connection failing (MemConn.WriteErr: broken pipe at the
 // moment the broker answers), then drops the connection if the broker has not done so and reconnects with clean
 // start 0.  The broker has read and handled the client's packet (the step waits for quiescence); only its
@@ -608,6 +794,7 @@ type qosCfg struct {
 	steps   int
 	sleepy  bool
 	faults  bool   // random steps include client packets whose answer cannot be written
+	sched   int    // > 0: forced schedules inside NextPacketID with this many concurrent allocators
 	gate    bool   // MaximumClientWritesPending = 1 and forced queue-full bursts
 	wbuf    int    // > 0: write-buffer bursts with this ClientNetWriteBufferSize (monitor-only histories)
 	word    []byte // exhaustive stream: a word over the symbolic alphabet a..g
@@ -626,6 +813,8 @@ func runQosHistory(seed int64, c qosCfg, trace bool) sx.V {
 	} else if c.wbuf > 0 {
 		g = &gate{}
 		mqtt.VerifPointHook = g.hook
+	} else if c.sched > 0 {
+		mqtt.VerifPointHook = nil
 	} else {
 		mqtt.VerifPointHook = nil
 	}
@@ -639,6 +828,7 @@ func runQosHistory(seed int64, c qosCfg, trace bool) sx.V {
 	}
 	q.p[0] = b.Connect("10.0.0.1:1", broker.ConnectPk("p0", 5, true))
 	q.p[1] = b.Connect("10.0.0.2:1", broker.ConnectPk("p1", 4, true))
+	q.p[2] = b.Connect("10.0.0.4:1", broker.ConnectPk("p2", 4, true))
 	q.r = b.Connect("10.0.0.3:1", broker.ConnectPk("r", 4, true))
 	b.SendPacket(q.r, broker.SubscribePk(1, packets.Subscription{Filter: "s/#", Qos: 0}))
 	b.Drain()
@@ -646,6 +836,22 @@ func runQosHistory(seed int64, c qosCfg, trace bool) sx.V {
 	q.connectS(c.v5, c.clean, c.sei, c.rm)
 	q.subscribeS()
 	q.runScript(c)
+	if c.sched > 0 {
+		q.ng = &ngate{point: "nextid.inside"}
+		mqtt.VerifPointHook = q.ng.hook
+		for i := 0; i < 3 && !b.Hung; i++ {
+			for j := q.rng.Intn(3); j > 0; j-- { // some unacknowledged traffic before, so that ids differ
+				q.publishP(q.rng.Intn(2), 0, 1, 0)
+			}
+			if q.schedBurst(c.sched) {
+				break
+			}
+			// acknowledge (almost) everything: identifiers must not run out in these histories
+			for keep := q.rng.Intn(2); len(q.pend) > keep && q.sConnected(); {
+				q.ackNext(0, 0)
+			}
+		}
+	}
 	for i := 0; c.wbuf > 0 && i < 4 && !b.Hung; i++ {
 		q.wbufBurst()
 	}
@@ -664,7 +870,7 @@ func runQosHistory(seed int64, c qosCfg, trace bool) sx.V {
 	}
 	cfg := sx.L{sx.N(uint64(c.maxpid)), sx.N(uint64(c.maxinfl)), sx.N(uint64(c.srvrm)),
 		sx.N(uint64(caps.MaximumMessageExpiryInterval))}
-	if c.wbuf > 0 {
+	if c.wbuf > 0 || q.monitorOnly {
 		cfg = append(cfg, sx.N(1)) // monitor-only history
 	}
 	return sx.L{cfg, q.steps}
@@ -969,9 +1175,12 @@ func engQos(seed int64, tier string, args []string, out *sx.Out) {
 	trace := false
 	only := ""
 	wbuf := false
+	sched := false
 	for _, a := range args {
 		if a == "trace" {
 			trace = true
+		} else if a == "sched" {
+			sched = true // C10 only: forced schedules inside NextPacketID
 		} else if a == "wbuf" {
 			wbuf = true // C12 only: write-buffer bursts, judged by the monitor alone
 		} else {
@@ -1018,6 +1227,21 @@ func engQos(seed int64, tier string, args []string, out *sx.Out) {
 			}
 			emit(c)
 			c.steps = 12
+			emit(c)
+		}
+	}
+	if sched {
+		ns := 12
+		if tier == "thorough" {
+			ns = 150
+		}
+		for i := 0; i < ns && (only == "" || only == "sch"); i++ {
+			c := base
+			c.maxpid, c.srvrm, c.rm = []uint32{16, 65535, 8}[i%3], 4, uint16(20*(i%2))
+			c.sched = 2 + i%2
+			if i%5 == 4 {
+				c.v5, c.sei, c.rm = false, 0, 0
+			}
 			emit(c)
 		}
 	}
